@@ -21,6 +21,15 @@
 (* nothing; |r| > 1 is clamped; every sample of the input vector is        *)
 (* offered once (action Offer) and pushed on the group's heap iff          *)
 (* AddRatioSample says so; the sample's value and timestamp play no role.  *)
+(*                                                                         *)
+(* TIME.  A range query (or a subquery) runs the same loop once per step   *)
+(* over the series that have a sample at that step (rangeEvalAgg ->        *)
+(* aggregationK with enh.Ts; series without a sample are skipped).  Every  *)
+(* series therefore carries its presence pattern `pres` (the steps at      *)
+(* which it has a sample: present throughout, starting late, stale at the  *)
+(* first step, with a gap, only at the last step).  Whatever is remembered *)
+(* between the steps must not change the answer: the selection of a series *)
+(* at a step is its selection in an instant query at that step.            *)
 (***************************************************************************)
 EXTENDS Integers, Sequences, FiniteSets, TLC, Json
 
@@ -28,15 +37,27 @@ CONSTANTS Scale,       \* 40
           Ratios,      \* subset of 0..Scale (multiples of 4), the r of limit_ratio(r, v)
           OffsetIds,   \* offsets (0..Scale) a series may have
           MaxVec,      \* vector size
+          NSteps,      \* steps of the range query
+          Patterns,    \* presence patterns offered (see PatternSteps)
           EmitMode
 
-VARIABLES vec,   \* the input vector: sequence of [o |-> offset, v |-> value id]
-          i,     \* next sample to offer
-          pos,   \* pos[r] = offsets selected so far by limit_ratio(r, v)
-          neg,   \* neg[r] = offsets selected so far by limit_ratio(r - 1, v)
+VARIABLES vec,   \* the input: sequence of [o |-> offset, p |-> presence pattern]
+          step,  \* current step of the range evaluation
+          i,     \* next series to offer at this step
+          pos,   \* pos[r][k] = offsets selected so far at step k by limit_ratio(r, v)
+          neg,   \* neg[r][k] = offsets selected so far at step k by limit_ratio(r - 1, v)
           phase
 
-vars == <<vec, i, pos, neg, phase>>
+vars == <<vec, step, i, pos, neg, phase>>
+
+Steps == 1..NSteps
+\* the steps at which a series with the given pattern has a sample
+PatternSteps(p) ==
+  CASE p = "all"    -> Steps
+    [] p = "late"   -> Steps \ {1}          \* first sample after the first step
+    [] p = "stale1" -> Steps \ {1}          \* a staleness marker at the first step
+    [] p = "gap"    -> Steps \ {2}          \* stale / missing at the second step
+    [] p = "last"   -> {NSteps}
 
 \* AddRatioSampleWithOffset on the exact grid (ratio and offset scaled by Scale)
 Clamp(r) == IF r > Scale THEN Scale ELSE IF r < -Scale THEN -Scale ELSE r
@@ -44,83 +65,110 @@ Sel(r, o) == IF r >= 0 THEN o < r ELSE o >= Scale + r
 \* aggregationK: limit_ratio(0, v) is empty
 Selected(r, o) == r # 0 /\ Sel(Clamp(r), o)
 
-Init == /\ vec = <<>> /\ i = 1 /\ phase = "build"
-        /\ pos = [r \in Ratios |-> {}] /\ neg = [r \in Ratios |-> {}]
+Init == /\ vec = <<>> /\ step = 1 /\ i = 1 /\ phase = "build"
+        /\ pos = [r \in Ratios |-> [k \in Steps |-> {}]] /\ neg = [r \in Ratios |-> [k \in Steps |-> {}]]
 
 \* the instant vector under limit_ratio: distinct label sets (= distinct offsets here), any value
-AddSeries(o, v) ==
+AddSeries(o, p) ==
   /\ phase = "build" /\ Len(vec) < MaxVec
   /\ \A k \in 1..Len(vec) : vec[k].o < o          \* canonical order, distinct series
-  /\ vec' = Append(vec, [o |-> o, v |-> v])
-  /\ UNCHANGED <<i, pos, neg, phase>>
+  /\ vec' = Append(vec, [o |-> o, p |-> p])
+  /\ UNCHANGED <<step, i, pos, neg, phase>>
 
 Run == /\ phase = "build" /\ vec # <<>>
        /\ phase' = "offer"
-       /\ UNCHANGED <<vec, i, pos, neg>>
+       /\ UNCHANGED <<vec, step, i, pos, neg>>
 
-\* one iteration of the series loop of aggregationK, for every ratio and its complement at once
+Present(n, k) == k \in PatternSteps(vec[n].p)
+
+\* one iteration of the series loop of aggregationK at the current step, for every ratio and its
+\* complement at once; a series without a sample at this step is skipped
 Offer ==
-  /\ phase = "offer" /\ i <= Len(vec)
+  /\ phase = "offer" /\ step <= NSteps /\ i <= Len(vec)
   /\ LET o == vec[i].o IN
-     /\ pos' = [r \in Ratios |-> IF Selected(r, o) THEN pos[r] \cup {o} ELSE pos[r]]
-     /\ neg' = [r \in Ratios |-> IF Selected(r - Scale, o) THEN neg[r] \cup {o} ELSE neg[r]]
+     IF Present(i, step)
+     THEN /\ pos' = [r \in Ratios |-> IF Selected(r, o) THEN [pos[r] EXCEPT ![step] = @ \cup {o}] ELSE pos[r]]
+          /\ neg' = [r \in Ratios |-> IF Selected(r - Scale, o) THEN [neg[r] EXCEPT ![step] = @ \cup {o}] ELSE neg[r]]
+     ELSE UNCHANGED <<pos, neg>>
   /\ i' = i + 1
-  /\ UNCHANGED <<vec, phase>>
+  /\ UNCHANGED <<vec, step, phase>>
 
-Finish == /\ phase = "offer" /\ i > Len(vec)
+\* rangeEvalAgg: next timestamp
+NextStep ==
+  /\ phase = "offer" /\ step <= NSteps /\ i > Len(vec)
+  /\ step' = step + 1 /\ i' = 1
+  /\ UNCHANGED <<vec, pos, neg, phase>>
+
+Finish == /\ phase = "offer" /\ step > NSteps
           /\ phase' = "done"
-          /\ UNCHANGED <<vec, i, pos, neg>>
+          /\ UNCHANGED <<vec, step, i, pos, neg>>
 
-Next == \/ \E o \in OffsetIds, v \in {1} : AddSeries(o, v)
-        \/ Run \/ Offer \/ Finish
+Next == \/ \E o \in OffsetIds, p \in Patterns : AddSeries(o, p)
+        \/ Run \/ Offer \/ NextStep \/ Finish
 
 Spec == Init /\ [][Next]_vars
 
 -----------------------------------------------------------------------------
 (* C34 as invariants of the exact model.                                    *)
 Offs == {vec[k].o : k \in 1..Len(vec)}
+\* the input vector at step k
+OffsAt(k) == {vec[n].o : n \in {m \in 1..Len(vec) : Present(m, k)}}
 InRange(o) == o < Scale            \* offsets are documented to lie in [0, 1)
 
 TypeOK == /\ phase \in {"build", "offer", "done"}
-          /\ \A r \in Ratios : pos[r] \subseteq Offs /\ neg[r] \subseteq Offs
+          /\ \A r \in Ratios, k \in Steps : pos[r][k] \subseteq OffsAt(k) /\ neg[r][k] \subseteq OffsAt(k)
 
-\* disjoint, and the union is the whole input (for offsets inside the documented range)
+\* at EVERY step: disjoint, and the union is the input at that step (offsets inside the documented range)
 Partition ==
   phase = "done" =>
-    \A r \in Ratios :
-      /\ pos[r] \cap neg[r] = {}
-      /\ {o \in Offs : InRange(o)} \subseteq pos[r] \cup neg[r]
+    \A r \in Ratios, k \in Steps :
+      /\ pos[r][k] \cap neg[r][k] = {}
+      /\ {o \in OffsAt(k) : InRange(o)} \subseteq pos[r][k] \cup neg[r][k]
 
-\* raising r never deselects a sample
+\* at every step: raising r never deselects a sample
 Monotone ==
-  phase = "done" => \A r1 \in Ratios, r2 \in Ratios : r1 <= r2 => pos[r1] \subseteq pos[r2]
+  phase = "done" => \A r1 \in Ratios, r2 \in Ratios, k \in Steps : r1 <= r2 => pos[r1][k] \subseteq pos[r2][k]
 
-\* at every point of the loop the selection so far is exactly the reference on the prefix
+\* labels only: a series is selected at a step iff an instant query at that step selects it, hence
+\* its selection is the same at all the steps at which it is present
+StepIndependent ==
+  phase = "done" =>
+    \A r \in Ratios, k \in Steps : \A o \in OffsAt(k) :
+      /\ (o \in pos[r][k]) = Selected(r, o)
+      /\ (o \in neg[r][k]) = Selected(r - Scale, o)
+
+\* at every point of the loops the selection so far is exactly the reference on the processed prefix
+Done(n, k) == k < step \/ (k = step /\ n < i)
 PrefixExact ==
-  \A r \in Ratios :
-    /\ pos[r] = {vec[k].o : k \in {n \in 1..(i - 1) : Selected(r, vec[n].o)}}
-    /\ neg[r] = {vec[k].o : k \in {n \in 1..(i - 1) : Selected(r - Scale, vec[n].o)}}
+  \A r \in Ratios, k \in Steps :
+    /\ pos[r][k] = {vec[n].o : n \in {m \in 1..Len(vec) : Done(m, k) /\ Present(m, k) /\ Selected(r, vec[m].o)}}
+    /\ neg[r][k] = {vec[n].o : n \in {m \in 1..Len(vec) : Done(m, k) /\ Present(m, k) /\ Selected(r - Scale, vec[m].o)}}
 
 -----------------------------------------------------------------------------
 RECURSIVE SetToSeq(_)
 SetToSeq(S) == IF S = {} THEN <<>> ELSE LET m == CHOOSE x \in S : \A y \in S : x <= y IN <<m>> \o SetToSeq(S \ {m})
 RatioSeq == SetToSeq(Ratios)
 
-Result == [vec |-> [k \in 1..Len(vec) |-> vec[k].o],
+\* pos / neg: [ratio index][step] -> selected offsets
+Result == [vec |-> [n \in 1..Len(vec) |-> vec[n].o],
+           pat |-> [n \in 1..Len(vec) |-> vec[n].p],
+           pres |-> [n \in 1..Len(vec) |-> SetToSeq(PatternSteps(vec[n].p))],
+           nsteps |-> NSteps,
            ratios |-> RatioSeq,
-           pos |-> [k \in 1..Len(RatioSeq) |-> SetToSeq(pos[RatioSeq[k]])],
-           neg |-> [k \in 1..Len(RatioSeq) |-> SetToSeq(neg[RatioSeq[k]])]]
+           pos |-> [x \in 1..Len(RatioSeq) |-> [k \in Steps |-> SetToSeq(pos[RatioSeq[x]][k])]],
+           neg |-> [x \in 1..Len(RatioSeq) |-> [k \in Steps |-> SetToSeq(neg[RatioSeq[x]][k])]]]
 
+\* pos / neg are complete when the last step has been processed (Finish changes nothing else)
 Emit == \/ EmitMode # "all"
         \/ ~(phase = "offer" /\ phase' = "done")
-        \/ PrintT("@@TR " \o ToJson([vec |-> [k \in 1..Len(vec) |-> vec[k].o],
-                                     ratios |-> RatioSeq,
-                                     pos |-> [k \in 1..Len(RatioSeq) |-> SetToSeq(pos[RatioSeq[k]])],
-                                     neg |-> [k \in 1..Len(RatioSeq) |-> SetToSeq(neg[RatioSeq[k]])]]))
+        \/ PrintT("@@TR " \o ToJson(Result))
 EmitWalk == phase # "done" \/ PrintT("@@TR " \o ToJson(Result))
 
 AllRatios == {0, 4, 8, 12, 16, 20, 24, 28, 32, 36, 40}
 \* every grid point: boundaries, their neighbours, cell interiors, and 1.0
 AllOffsets == 0..40
 CellOffsets == {2, 6, 10, 14, 18, 22, 26, 30, 34, 38}
+\* cells and a few boundary neighbours, for the configurations with presence patterns
+StepOffsets == {2, 10, 11, 12, 13, 22, 30, 38}
+AllPatterns == {"all", "late", "stale1", "gap", "last"}
 =============================================================================
